@@ -7,11 +7,38 @@ program order, skipped trials) are the clock oracle of the model replay. Oracle:
 decoded by the extracted specification (fidelity), strictly parsed (well-formedness) and compared in size."""
 import os
 
+import subprocess
+import tempfile
+
+import chunkgen
 import e2e
 import imggen
 import pnggen as pg
 import vlib
-from props import c01, c04
+from props import c01, c04, c07, c10
+
+
+def apng_smooth(rng, nframes, w, h):
+    """gray-8 APNG whose frames are smooth, pairwise different pictures stored uncompressed: every frame can be made smaller,
+    and a frame that received another frame's data shows a different picture"""
+    import struct
+    import zlib as z
+
+    def fr(seed):
+        raw = b"".join(b"\0" + bytes(((x * (seed + 1) + y * 3 + seed * 40) // 2) & 255 for x in range(w)) for y in range(h))
+        return z.compress(raw, 0)
+    out = bytearray(pg.SIG)
+    out += pg.chunk("IHDR", pg.ihdr_bytes(w, h, 8, 0, False))
+    out += pg.chunk("acTL", struct.pack(">II", nframes + 1, 0))
+    out += pg.chunk("fcTL", struct.pack(">IIIIIHHBB", 0, w, h, 0, 0, 1, 10, 0, 0))
+    out += pg.chunk("IDAT", fr(0))
+    seq = 1
+    for i in range(nframes):
+        out += pg.chunk("fcTL", struct.pack(">IIIIIHHBB", seq, w, h, 0, 0, 1, 10, 0, 0))
+        out += pg.chunk("fdAT", struct.pack(">I", seq + 1) + fr(i + 1))
+        seq += 2
+    out += pg.chunk("IEND", b"")
+    return bytes(out)
 
 
 def run(rep):
@@ -38,11 +65,13 @@ def run(rep):
         mode = "alpha" if k % 4 == 3 else "lossless"
         o = e2e.rand_opts(rng, mode)
         base.add(f"optlog {o} - {png.hex()}", png=png, opts=o, mode=mode, depth=depth, orig=png, rich=(k % 3 == 1))
-    if not quick:
-        for k in range(40):
-            png = c04.apng_bytes(rng)
-            o = e2e.rand_opts(rng, "lossless")
-            base.add(f"optlog {o} - {png.hex()}", png=png, opts=o, mode="apng", depth=8, orig=png)
+    for k in range(6 if quick else 40):
+        # animated images: every frame consults the clock on its own worker thread, so ANY subset of the frames can be the ones
+        # that see the timeout expired
+        png = (c04.apng_bytes(rng) if k % 3 == 2 else chunkgen.gen_apng(rng, extra_frames=3 + k % 4)[0] if k % 3 == 1
+               else apng_smooth(rng, 5 + k % 4, 24 + k, 16))
+        o = "alpha=1" if k % 6 == 5 else rng.choice(["-", "preset=2", "preset=4"])
+        base.add(f"optlog {o} - {png.hex()}", png=png, opts=o, mode="apng", depth=8, orig=png, policy="none")
     out0 = e2e.run_pairs(rep, base, "optimize_from_memory (untimed)")
     # a timeout that can never expire ("or never"): the largest representable durations behave exactly like no timeout
     never = vlib.Cases()
@@ -68,7 +97,19 @@ def run(rep):
         ks.append(K)
         for k in range(K + 1):
             timed.add(f"optlog {m['opts']} {k} {m['png'].hex()}", png=m["png"], opts=m["opts"], mode=m["mode"], depth=m["depth"],
-                      orig=m["png"], k=k, K=K, untimed=res, must_succeed=True, rich=m.get("rich", False))
+                      orig=m["png"], k=k, K=K, untimed=res, must_succeed=True, rich=m.get("rich", False), policy=m.get("policy"))
+        if m["mode"] == "apng" and K > 0:
+            # explicit answer patterns over the last consultations (the frame checks): one frame only, every other frame, all but one
+            tail = min(K, 10)
+            masks = set()
+            for j in range(tail):
+                masks.add("0" * (K - tail + j) + "1" + "0" * (tail - j - 1))
+                masks.add("0" * (K - tail) + "1" * j + "0" + "1" * (tail - j - 1))
+            masks.add("0" * (K - tail) + ("10" * tail)[:tail])
+            masks.add("0" * (K - tail) + ("01" * tail)[:tail])
+            for mk in sorted(masks):
+                timed.add(f"optlog {m['opts']} m{mk} {m['png'].hex()}", png=m["png"], opts=m["opts"], mode=m["mode"], depth=m["depth"],
+                          orig=m["png"], k="mask " + mk[K - tail:], K=K, untimed=res, must_succeed=True, rich=False, policy=m.get("policy"))
     rep.extra["consultations_per_case"] = {"min": min(ks), "max": max(ks), "mean": round(sum(ks) / max(1, len(ks)), 1)}
     # APNG frames consult the clock on worker threads (not replayable through the recorded answers): oracle only
     replayable = vlib.Cases()
@@ -101,8 +142,79 @@ def run(rep):
         if cases is replayable:
             c01.oracle(rep, cases, res, lambda m: "alphaeq" if m["mode"] == "alpha" else "eq", "C13",
                        "with the timeout expiring at some check the output no longer decodes to the input's pixels")
+        else:
+            # animated images: structure, every fcTL field, and the pixels of the default image and of EVERY frame
+            model = os.path.join(vlib.BUILD, "ocaml", "modelrun")
+            safe = c07.manual_safe_list()
+            orc = vlib.Cases()
+            for cid, m in cases.meta.items():
+                r = res[cid][0]
+                if r.startswith("ok "):
+                    c10.check_apng_output(rep, m, bytes.fromhex(r[3:]), orc, cid, safe, sig="C13", ctx=f" with clock answers {m['k']}")
+            c10.run_oracle(rep, model, orc, cases.meta, sig="C13")
+    file_routes(rep, base)
     rep.sample("optlog %s k=0..K - <%d bytes>, K=%d" % (base.meta["c0"]["opts"], len(base.meta["c0"]["png"]), ks[0]))
     rep.assumptions.append("the wall clock is replaced by the hook (k-th and later consultations answer expired); monotonicity of Instant is not needed for these safety statements")
+
+
+def file_routes(rep, base):
+    """the file entry point with a timeout that is already expired when the input has been read (`--timeout 0`): the run must still
+    deliver a correct file wherever the manual says the result goes (--out, onto an existing --out, --dir, --stdout, stdin)"""
+    cli = rep.info.get("cli")
+    if not cli or not os.path.exists(cli):
+        rep.notes.append("executable not built; file routes with an expired timeout not run")
+        return
+    model = os.path.join(vlib.BUILD, "ocaml", "modelrun")
+    orc = vlib.Cases()
+    metas = {}
+    picks = [m for m in base.meta.values() if m["mode"] == "lossless"][: (4 if rep.tier == "quick" else 25)]
+    for i, m in enumerate(picks):
+        for route in ("out", "out-existing", "dir", "stdout", "stdin"):
+            with tempfile.TemporaryDirectory(prefix="c13_") as d:
+                src = os.path.join(d, "in.png")
+                open(src, "wb").write(m["png"])
+                dest = None
+                argv = ["--timeout", "0", "-q"] if route != "stdin" else ["--timeout", "0"]
+                stdin = None
+                if route in ("out", "out-existing"):
+                    dest = os.path.join(d, "res.png")
+                    if route == "out-existing":
+                        open(dest, "wb").write(b"stale" * 400)
+                    argv += ["--out", dest, src]
+                elif route == "dir":
+                    os.mkdir(os.path.join(d, "sub"))
+                    dest = os.path.join(d, "sub", "in.png")
+                    argv += ["--dir", os.path.join(d, "sub"), src]
+                elif route == "stdout":
+                    argv += ["--stdout", src]
+                else:
+                    argv += ["--stdout", "-"]
+                    stdin = m["png"]
+                p = subprocess.run([cli] + argv, input=stdin, stdout=subprocess.PIPE, stderr=subprocess.PIPE, timeout=120)
+                rep.evaluations += 1
+                got = p.stdout if dest is None else (open(dest, "rb").read() if os.path.exists(dest) else None)
+                desc = {"argv": argv, "input_hex": m["png"].hex(), "route": route, "cases": []}
+                if p.returncode != 0:
+                    rep.violation("C13:file-route-failed", f"`--timeout 0` via {route}: exit status {p.returncode}: {p.stderr[-200:]!r}", desc)
+                    continue
+                if not got:
+                    rep.violation("C13:file-route-no-result", f"`--timeout 0` via {route}: the run reports success but delivered nothing", desc)
+                    continue
+                rep.nontriv(("route", i, route))
+                if got != m["png"] and len(got) >= len(m["png"]):
+                    rep.violation("C13:file-route-larger", f"`--timeout 0` via {route}: the delivered file is neither the input nor smaller", desc)
+                try:
+                    ta, _ = e2e.stream_token(m["png"])
+                    tb, _ = e2e.stream_token(got)
+                except Exception as ex:
+                    rep.violation("C13:file-route-unreadable", f"`--timeout 0` via {route}: delivered bytes are not a well-formed PNG: {ex}", desc)
+                    continue
+                oid = orc.add(f"spec_rel_stream {ta} {tb}", route=route)
+                metas[oid] = desc
+    ro = vlib.run_cases(model, orc.lines)
+    for oid, mo in orc.meta.items():
+        if ro.get(oid) != "eq":
+            rep.violation("C13:file-route-pixels", f"`--timeout 0` via {mo['route']}: the delivered file does not decode to the input's pixels ({ro.get(oid)})", metas[oid])
 
 
 replay = c01.replay
